@@ -15,6 +15,9 @@ CLAIMED = {
  "C16": dict(engine="writeremove", path="harness/scen/c16.go", design="DESIGN.md section 4 (C16)",
    text="Seeded exploration of configurations (1-4 directories, last one possibly missing with missing parents, pre-existing Specs incl. lower-priority definitions of the same devices and similarly named siblings), names from all four generator functions with hostile transient ids ('/', '..', dots, extensions, blanks, long ids), vendors/classes with dots and .json/.yaml endings, and sequences of WriteSpec/RemoveSpec; the simulated disk records every system call, so confinement ('touches nothing else') is checked on the complete history including effects undone before return. A quarter of the runs inject write faults (ENOSPC/EIO/EDQUOT/EMFILE, partial writes): then only confinement and target-is-old-or-new are required.",
    note="Trusted: simulator, model; the expected target path is computed from the property statement (last directory + name, .yaml appended unless the name ends in .json/.yaml)."),
+ "C10": dict(engine="publish", path="harness/scen/c10.go", design="DESIGN.md section 4 (C10)",
+   text="A complete, enumerated single-fault sweep (18 scenarios x every system call of the writer x kill / every errno of that call / 4 write-offset classes, incl. deferred write-back errors at close) plus seeded search over interleavings of the writer with a plain reader, a manual cache, an auto-refreshed cache and a second writer under 0-2 faults, kills and short writes. The invariant 'every Spec-named entry is exactly a complete previous or complete new Spec' is evaluated by an omniscient observer after every scheduler step (every instant between two system calls), reader observations during the write and a fresh scan after the end are checked too. New content is a strict superset of the old so that a YAML prefix is itself loadable.",
+   note="Process-crash atomicity (every completed system call survives); power-loss atomicity is not claimed. Trusted: simulated kernel semantics of open/write/close/renameat2/unlink."),
 }
 
 PURE = {
